@@ -941,7 +941,7 @@ def modules_enter_the_node_through_add_module(ctx):
         raise AnchorMissing('no store into self.modules found in SecNode')
 
 
-@rule('C08.R10', min_instances=2)
+@rule('C08.R10', min_instances=1)
 def the_running_flag_is_read_under_the_send_lock(ctx):
     """send_reply of every interface: a failed send clears `running` inside send_lock, and the next sender decides whether it
     may still write by reading `running` inside the same lock.  A value of the flag that was read BEFORE the lock was taken
@@ -953,22 +953,21 @@ def the_running_flag_is_read_under_the_send_lock(ctx):
     for q, f in sorted(m.functions.items()):
         if f.name != 'send_reply' or not f.module.name.startswith('frappy.protocol.interface') or f.cls is None:
             continue
-        withs = [w for w in body_walk(f.node) if isinstance(w, ast.With) and any('send_lock' in src(i.context_expr) for i in w.items)]
-        if not withs:
-            continue
+        locked = [x for x in body_walk(f.node) if isinstance(x, ast.stmt) and in_lock(x, 'send_lock')]
+        if not locked:
+            continue        # (the send of this class is not in a send_lock region of send_reply itself: C07.R4 decides that)
         ctx.analysed(f)
         n += 1
-        inside = {id(x) for w in withs for x in ast.walk(w)}
         stale = []
         for st in body_walk(f.node):
-            if isinstance(st, ast.Assign) and id(st) not in inside and len(st.targets) == 1 and isinstance(st.targets[0], ast.Name) \
+            if isinstance(st, ast.Assign) and not in_lock(st, 'send_lock') and len(st.targets) == 1 and isinstance(st.targets[0], ast.Name) \
                     and any(isinstance(x, ast.Attribute) and x.attr == 'running' and dotted(x.value) == 'self' for x in ast.walk(st.value)):
                 nm = st.targets[0].id
-                if any(isinstance(x, ast.Name) and x.id == nm and isinstance(x.ctx, ast.Load) and id(x) in inside for w in withs for x in ast.walk(w)):
+                if any(isinstance(x, ast.Name) and x.id == nm and isinstance(x.ctx, ast.Load) and in_lock(x, 'send_lock') for x in body_walk(f.node)):
                     stale.append(st)
-        ctx.check(not stale, f'{f.qualname}:running is read inside send_lock', stale[0] if stale else withs[0],
+        ctx.check(not stale, f'{f.qualname}:running is read inside send_lock', stale[0] if stale else locked[0],
                   'no value of self.running taken outside the lock is used inside it',
                   f'`{src(stale[0]) if stale else ""}` is evaluated before send_lock is taken and decides inside the lock: after another thread\'s send failed '
                   'meanwhile, this sender still writes its frame behind the broken one and sets running back to True - the connection stays activated with a lost update', f)
-    if n < 2:
-        raise AnchorMissing('send_reply with a send_lock block not found in the interfaces')
+    if n < 1:
+        raise AnchorMissing('send_reply sending inside a send_lock region not found in the interfaces')
